@@ -18,7 +18,15 @@ RULE = ("per operation (3 generators, 6 smoothers, initial plate, combination fi
         "operation at arity 2/3, >= 11 generated plates (gen-seg / gen-pair / gen-perm), pairwise at arity 3 and 1, odd plate counts "
         "3,5,6,7,11 with 1-4 top-bottom iterations, min-merge sums exactly at limit / limit+1, optimal-size ties, several samples below "
         "the per-sample minimum; numpy seed recorded per case. The oracles read the INPUT from the raw case description (not from a "
-        "batchie Screen). Non-trivial: operation returned, >=4 rows, >=2 unobserved plates.")
+        "batchie Screen). Non-trivial: operation returned, >=4 rows, >=2 unobserved plates."
+        " HARDENING_CHECKLIST classes (evidence `class.*`): every case checks the input screen byte-for-byte after the call; 3 cases per "
+        "operation (+ directed ones) run a history on ONE operation object (op(relative of the input with an extra plate/sample); op(input) "
+        "judged; op(input) again) and compare with a fresh object and re-read the judged result; inputs as Fortran / strided / negative-stride / "
+        "read-only / <U48 arrays and names >= 27 characters; supplied mappings with shuffled rows and permuted ids, screens without any "
+        "control, pairwise single-agent samples that are not a sorted prefix of the combination samples; array attributes of results "
+        "enumerated by introspection (+ ids one-to-one with names); 5 cases per operation repeated in another interpreter with another "
+        "PYTHONHASHSEED; generator seed 0, one-row screens, parameters 0/1, sample id 0 dropped; rows shuffled (observed rows before / between "
+        "unobserved ones, plates and samples interleaved); >= 11 and >= 101 generated plates.")
 
 
 def run(ctx, res):
@@ -26,4 +34,4 @@ def run(ctx, res):
 
 
 def replay(ctx, case, res):
-    P.replay_property(ctx, case, res, P.oracles_c11)
+    P.replay_property(ctx, case, res, P.oracles_c11, "C11")
